@@ -76,8 +76,8 @@ func rbLinks[V any](root *rbt.Node[int, V], size int) bool {
 	return ok && count == size
 }
 
-func intVal(v int) int           { return v }
-func unitVal(struct{}) int       { return 0 }
+func intVal(v int) int                         { return v }
+func unitVal(struct{}) int                     { return 0 }
 func rbTreeShape(t *rbt.Tree[int, int]) string { return rbShape(t.Root, intVal) }
 func rbTreeLinks(t *rbt.Tree[int, int]) bool   { return rbLinks(t.Root, t.Size()) }
 
